@@ -170,6 +170,13 @@ def model_calls(calls) -> List[Any]:
     return [[sc, st, ob, rel] for sc, st, ob, rel, _ in calls]
 
 
+def translate(ctx: C.Ctx) -> List[str]:
+    """The shared tree model reads two extracted flags (see c07.translate); C17 itself does not depend on them."""
+    from props import c07
+    c07.translate(ctx)
+    return []
+
+
 def correspond(ctx: C.Ctx, cov: C.Coverage) -> List[C.Disagreement]:
     rng = random.Random(f"C17:{ctx.seed}")
     cov.rule = ("every submodel tree with <= N element nodes over {collection, list, property} (N=3 quick, 4 thorough) x ALL 2^n source "
